@@ -1,109 +1,60 @@
 /-
   Proofs/C13/Table — kernel checks for the verb phase of `http_parse`: the compiled multi-pattern matcher
-  `Gen.HttpSmack` run by `search_next`.  Two parts:
-  * completeness (evaluation of the table along each method spelling, case-insensitively);
-  * soundness (a kernel-checked closure over all rows × 256 bytes of the generated table: every
-    non-dead row `r` is reached from the start row exactly along the lower-cased word `word r`).
+  `Gen.HttpSmack` run by `search_next`.
+
+  ROBUSTNESS: nothing in this file mentions a concrete row number, row count or match limit of the
+  compiled table.  The language of the Verb id (soundness and completeness) comes from the generic,
+  annotation-driven closure proof of `Proofs/C10/HttpVerb` (`C10.http_verb_language'`, witness `Gen/HttpAnn`
+  regenerated with the table); this file adds two small kernel checks, both quantified over the
+  generated definitions only:
+  * `foldOk_true`  — the table is case-insensitive: a byte and its ASCII lower-case form are in the same
+    byte class;
+  * `deadOk_true`  — a match row that does not carry the Verb id only leads to rows in which no method
+    name is alive (annotation empty) or to match rows that do not carry the Verb id either: once a
+    non-Verb pattern has matched, the Verb id is never reported.
 -/
-import Masscanned.Model.Http
+import Masscanned.Proofs.C10.HttpVerb
 import Masscanned.Spec.Http
 namespace Masscanned.C13.Aux
 open Masscanned Spec
 
+set_option maxRecDepth 100000
+
+/-- number of rows of the compiled table -/
+abbrev N : Nat := Gen.HttpSmack.nrows
+
 /-- one byte of the compiled automaton -/
-def step (r : Nat) (b : UInt8) : Nat := Gen.HttpSmack.trans (r * 32 + Gen.HttpSmack.c2s b.toNat)
+def step (r : Nat) (b : UInt8) : Nat := C10.mstep httpTbl r b.toNat
 
 /-- the nine methods, lower-cased -/
 def lowerM : List Bytes := httpMethods.map (·.map lowerB)
 
-/-- for each row of the compiled table, the (lower-case) word that leads to it from the start row
-    (rows 1, 59, 60 — unanchored state, ":" and LF matches — are not trie rows). Checked below. -/
-def words : List (List UInt8) := [[],
- [],
- [103],
- [103, 101],
- [99, 111, 110, 116, 101, 110, 116, 45, 116, 121, 112],
- [112],
- [112, 117],
- [99, 111, 110, 116, 101, 110, 116, 45, 116, 121],
- [112, 111],
- [112, 111, 115],
- [99, 111, 110, 116, 101, 110, 116, 45, 116],
- [104],
- [104, 101],
- [104, 101, 97],
- [99, 111, 110, 116, 101, 110, 116, 45, 108, 101, 110, 103, 116],
- [100],
- [100, 101],
- [100, 101, 108],
- [100, 101, 108, 101],
- [100, 101, 108, 101, 116],
- [99, 111, 110, 116, 101, 110, 116, 45, 108, 101, 110, 103],
- [99],
- [99, 111],
- [99, 111, 110],
- [99, 111, 110, 110],
- [99, 111, 110, 110, 101],
- [99, 111, 110, 110, 101, 99],
- [99, 111, 110, 116, 101, 110, 116, 45, 108, 101, 110],
- [111],
- [111, 112],
- [111, 112, 116],
- [111, 112, 116, 105],
- [111, 112, 116, 105, 111],
- [111, 112, 116, 105, 111, 110],
- [99, 111, 110, 116, 101, 110, 116, 45, 108, 101],
- [116],
- [116, 114],
- [116, 114, 97],
- [116, 114, 97, 99],
- [99, 111, 110, 116, 101, 110, 116, 45, 108],
- [112, 97],
- [112, 97, 116],
- [112, 97, 116, 99],
- [99, 111, 110, 116, 101, 110, 116, 45],
- [99, 111, 110, 116],
- [99, 111, 110, 116, 101],
- [99, 111, 110, 116, 101, 110],
- [99, 111, 110, 116, 101, 110, 116],
- [112, 97, 116, 99, 104],
- [116, 114, 97, 99, 101],
- [111, 112, 116, 105, 111, 110, 115],
- [99, 111, 110, 110, 101, 99, 116],
- [100, 101, 108, 101, 116, 101],
- [104, 101, 97, 100],
- [99, 111, 110, 116, 101, 110, 116, 45, 108, 101, 110, 103, 116, 104],
- [112, 111, 115, 116],
- [112, 117, 116],
- [103, 101, 116],
- [99, 111, 110, 116, 101, 110, 116, 45, 116, 121, 112, 101],
- [],
- []]
+theorem lowerB_eq : (lowerB : UInt8 → UInt8) = C10.lowerB := rfl
 
-def word (r : Nat) : List UInt8 := words.getD r []
+theorem lowerM_eq : lowerM = C10.httpMethodNames := by decide +kernel
 
-/-- the only id of a match row -/
-def idOf (r : Nat) : Nat := (Gen.HttpSmack.ids r).headD 7
+/-- the annotation of the HTTP matcher (which method names are still alive in a non-match row) -/
+def AR (row : Nat) : C10.RState := C10.decodeR C10.verbsL (C10.annOf C10.annH row)
 
-/-- per row and byte: the transition stays in the table, dead rows stay dead, live rows extend
-    their word by the lower-cased byte -/
-def chk (r : Nat) (b : UInt8) : Bool :=
-  decide (Gen.HttpSmack.c2s b.toNat < 32) &&
-  (if r = 1 ∨ r ≥ 48 then decide (step r b = 1 ∨ step r b = 59 ∨ step r b = 60)
-   else decide (step r b = 1 ∨ step r b = 59 ∨ step r b = 60 ∨
-      (step r b < 59 ∧ word (step r b) = word r ++ [lowerB b]))) &&
-  decide (step r (lowerB b) = step r b)
+/-! ### case-insensitivity -/
 
-def closureOk : Bool := (List.range 61).all fun r => (List.range 256).all fun c => chk r (UInt8.ofNat c)
+def foldOkB : Bool :=
+  C10.allBelow (fun c => httpTbl.c2s (lowerB (UInt8.ofNat c)).toNat == httpTbl.c2s c) 256
 
-theorem closureOk_true : closureOk = true := by decide +kernel
+theorem foldOk_true : foldOkB = true := by decide +kernel
 
-/-- per row: match counts and ids -/
-def chkRow (r : Nat) : Bool :=
-  if r < 48 then decide (Gen.HttpSmack.cnt r = 0)
-  else decide (Gen.HttpSmack.cnt r = 1) && decide (Gen.HttpSmack.ids r = [idOf r]) && decide (idOf r < 5) &&
-    (if idOf r = 0 then decide (r ≠ 59 ∧ r ≠ 60) && decide (word r ∈ lowerM) else true)
+/-! ### after a non-Verb match -/
 
-theorem rowsOk_true : ((List.range 61).all chkRow) = true := by decide +kernel
+/-- executable form of "no method name alive / not a Verb match row" -/
+def deadRowB (r : Nat) : Bool :=
+  if r < httpTbl.matchLimit then C10.field C10.annH r / 256 == 0 else (httpTbl.ids r).all (· != 0)
+
+def deadStepB (r : Nat) : Bool :=
+  !(httpTbl.ids r).all (· != 0) || C10.allBelow (fun c => deadRowB (C10.mstep httpTbl r c)) 256
+
+/-- all match rows (`matchLimit ≤ r < nrows`) -/
+theorem deadOk_true :
+    C10.allBelow (fun j => deadStepB (httpTbl.matchLimit + j)) (N - httpTbl.matchLimit) = true := by
+  decide +kernel
 
 end Masscanned.C13.Aux
